@@ -1,5 +1,5 @@
 import sys, os
-sys.path.insert(0,"/root/vtlstub"); import vtlstub; vtlstub.install(os.environ.get("VTL_SRC","/repo/src"))
+sys.path.insert(0,"/verif/triage"); import vtlstub; vtlstub.install(os.environ.get("VTL_SRC","/repo/src"))
 from vtlengine import AST
 from vtlengine.AST.DAG import DAGAnalyzer
 P=dict(line_start=1, column_start=1, line_stop=1, column_stop=1)
